@@ -18,7 +18,13 @@ namespace vh {
 
 struct Rng {  // splitmix64: every random choice derives from VERIF_SEED
     uint64_t s;
-    explicit Rng(uint64_t seed) : s(seed * 0x9E3779B97F4A7C15ull + 0x1234567ull) {}
+    // the seed is hashed first: otherwise the stream of seed n+1 is the stream of seed n shifted by one draw
+    explicit Rng(uint64_t seed) : s(0) {
+        uint64_t z = seed + 0x1234567ull;
+        z = (z ^ (z >> 33)) * 0xFF51AFD7ED558CCDull;
+        z = (z ^ (z >> 33)) * 0xC4CEB9FE1A85EC53ull;
+        s = z ^ (z >> 33);
+    }
     uint64_t next() {
         uint64_t z = (s += 0x9E3779B97F4A7C15ull);
         z = (z ^ (z >> 30)) * 0xBF58476D1CE4E5B9ull;
